@@ -3,7 +3,7 @@ From Coq Require Import ExtrOcamlBasic.
 From Coq Require Extraction.
 From LJT Require Import gen.GenIccConst model.MarkerRT model.Icc model.CopyMarkers model.TjHeader.
 Extraction Language OCaml.
-Extraction "x_c16.ml" write_icc read_icc markers_of saved_of write_marker write_markers
+Extraction "x_c16.ml" write_icc read_icc read_icc_fast marker_is_icc markers_of saved_of write_marker write_markers
   jpeg_save_markers cfg_init read_header read_app_markers hinfo_init
   emit_sof get_sof emit_sos get_sos emit_dri get_dri emit_jfif_app0 emit_adobe_app14 emit_file_header
   sof_code sof_flags decide_colorspace copy_setup copy_execute copy_pipeline
